@@ -240,6 +240,53 @@ func genMatcherCase(t *testing.T, r *hx.RNG, c drvCfg, weights map[string]int) m
 				from := pickRouter(rr, c)
 				meta["ttl"], meta["from"], meta["form"] = fmt.Sprint(ttl), from.String(), "te/quoted-opts-mimic"
 				return ip4Packet(from, c.Local, 1, 0x2222, 250, 0, 0, nil, icmp4Msg(11, 0, [4]byte{}, q)), meta
+			case "quote-ext":
+				// IPv6 only: an ICMPv6 error whose QUOTED IPv6 header names an extension header (hop-by-hop,
+				// routing, destination options, fragment, …) as its next header, followed by anything from
+				// nothing to a few well-formed headers, with a length octet that may claim far more than the
+				// router quoted. Genuine probes carry no extension headers, so whatever a matcher makes of
+				// such a quote, it must not take the run down.
+				ttl, ok := pickSent()
+				if !ok || probeOf(ttl) == nil || !c.v6() || len(probeOf(ttl)) < 48 {
+					return rr.Bytes(rr.Range(0, 64)), map[string]string{"stream": "noise"}
+				}
+				pr := probeOf(ttl)
+				q := append([]byte(nil), pr[:40]...)
+				nh := q[6]
+				q[6] = hx.Pick(rr, []byte{0, 43, 60, 44, 51, 50, 135, 139, 140, 59})
+				for k := rr.Range(0, 2); k >= 0; k-- {
+					next := nh
+					if k > 0 {
+						next = hx.Pick(rr, []byte{0, 43, 60, 44})
+					}
+					claimed := hx.Pick(rr, []byte{0, 0, 1, 2, 5, 31, 127, 255})
+					present := hx.Pick(rr, []int{0, 1, 2, 7, 8, 8, 16, 8 + 8*int(claimed)})
+					if present > 200 {
+						present = 8
+					}
+					ext := rr.Bytes(present)
+					if present > 0 {
+						ext[0] = next
+					}
+					if present > 1 {
+						ext[1] = claimed
+					}
+					q = append(q, ext...)
+				}
+				if rr.Bool() {
+					q = append(q, pr[40:]...)
+				}
+				binary.BigEndian.PutUint16(q[4:], uint16(len(q)-40))
+				from := pickRouter(rr, c)
+				typ, code := byte(3), byte(0)
+				if c.kind() == "udp" && rr.Bool() {
+					typ, code = 1, 4
+					if rr.Bool() {
+						from = c.Target
+					}
+				}
+				meta["ttl"], meta["from"], meta["form"] = fmt.Sprint(ttl), from.String(), "icmp6-error/quoted-extension-headers"
+				return ip6Packet(from, c.Local, 58, 250, icmp6Msg(from, c.Local, typ, code, [4]byte{}, q)), meta
 			case "other-family":
 				// a genuine IPv4 reply re-encapsulated in IPv6 between the IPv4-MAPPED forms of the same
 				// addresses (::ffff:a.b.c.d): every identifier is right, the IP version is not. A parser
